@@ -1,6 +1,18 @@
 """C07 obligations (DESIGN.md C07)."""
 OBLIGATIONS = [
-    dict(name="pbind_r2", subst={"pbind.c": [("#define BufferSize 8192", "#define BufferSize 16")]}, src="pbind.c", include=["pbind.c", "toolutils.c"], defs=["STRINGSIZE=16"],
+    dict(name="pbind_q_ls", subst={"pbind.c": [("#define BufferSize 8192", "#define BufferSize 16")]}, src="pbind.c", include=["pbind.c", "toolutils.c"], defs=["STRINGSIZE=16", "CF_L=2", "RKINDS=16"],
+         functions=["pbind.c:OpenTarget", "pbind.c:ProcessFile", "pbind.c:CloseTarget", "toolutils.c:ReadRecordHeader", "toolutils.c:WriteRecordHeader",
+                    "toolutils.c:SkipRecord", "toolutils.c:FilterOK", "toolutils.c:Granularity"],
+         bounds="2 records x <= 2 payload bytes, kinds fixed (long + short form), any CPU/segment/granularity/start, -f list <= 2",
+         unwind=14, unwind_fn={"cf_load": 40, "cf_build": 8, "harness": 8, "ProcessFile": 7, "vf_fread": 8, "vf_fwrite": 14}, timeout=1700, mem_gb=28,
+         assumes=["stdio replaced by the memory-file model", "option parsing not executed; filter statics set directly", "errno == 0 on entry (no stale I/O error)", "pbind copy buffer shrunk from 8192 to 16 bytes"]),
+    dict(name="pbind_q_xl", subst={"pbind.c": [("#define BufferSize 8192", "#define BufferSize 16")]}, src="pbind.c", include=["pbind.c", "toolutils.c"], defs=["STRINGSIZE=16", "CF_L=2", "RKINDS=4"],
+         functions=["pbind.c:OpenTarget", "pbind.c:ProcessFile", "pbind.c:CloseTarget", "toolutils.c:ReadRecordHeader", "toolutils.c:WriteRecordHeader",
+                    "toolutils.c:SkipRecord", "toolutils.c:FilterOK", "toolutils.c:Granularity"],
+         bounds="2 records x <= 2 payload bytes, kinds fixed ($82 record + long form), any CPU/segment/granularity/start, -f list <= 2",
+         unwind=14, unwind_fn={"cf_load": 40, "cf_build": 8, "harness": 8, "ProcessFile": 7, "vf_fread": 8, "vf_fwrite": 14}, timeout=1700, mem_gb=28,
+         assumes=["stdio replaced by the memory-file model", "option parsing not executed; filter statics set directly", "errno == 0 on entry (no stale I/O error)", "pbind copy buffer shrunk from 8192 to 16 bytes"]),
+    dict(name="pbind_r2", tier="thorough", subst={"pbind.c": [("#define BufferSize 8192", "#define BufferSize 16")]}, src="pbind.c", include=["pbind.c", "toolutils.c"], defs=["STRINGSIZE=16"],
          functions=["pbind.c:OpenTarget", "pbind.c:ProcessFile", "pbind.c:CloseTarget", "toolutils.c:ReadRecordHeader", "toolutils.c:WriteRecordHeader",
                     "toolutils.c:SkipRecord", "toolutils.c:FilterOK", "toolutils.c:Granularity"],
          bounds="2 records x <= 2 payload bytes of every kind (long, short, entry, $82, absent), any CPU/segment/granularity/start, -f list <= 2",
